@@ -41,6 +41,8 @@ def gen_call(ctx: Ctx, P, for_mean=False):
         agg = ("sum",)
     elif a < 0.7 and m in (1, 2, 4, 8, 16):
         agg = ("mean",)
+    elif P.big:
+        agg = ("const", [rng.choice([-2, -1, 1, 2, 3]) for _ in range(m)])     # the probe is cubic in J: not exact with *BIG
     else:
         agg = ("probe", [rng.choice([-2, -1, 1, 2, 3]) for _ in range(m)])
     chunk = rng.choice([None, None, 1, 2, 3, m, m + 2])
@@ -57,7 +59,7 @@ def one(ctx: Ctx, P, call, dtypes):
                                    call["chunk"], call["retain"], call["pre"], report)
     big = max_abs(mg)
     for dtype in dtypes:
-        if dtype == torch.float32 and big * 4096 > 2 ** 22:
+        if dtype == torch.float32 and (big * 4096 > 2 ** 22 or P.big):
             ctx.count("skipped_f32_magnitude")
             continue
         if big > 2 ** 44:
